@@ -81,6 +81,7 @@ TWrite == /\ IsEvent("write")
           /\ E.len = L + E.dlen /\ E.dlen >= 0        \* a length obtained with get_length (possibly more)
           /\ E.off >= fend                            \* images are laid out one after the other
           /\ E.offrem = E.off % page
+          /\ E.covers \in {0, 1} /\ E.size0 >= 0 /\ E.size1 >= 0 /\ Len(E.all0) = 4 /\ Len(E.all1) = 4   \* (file sizes and whole-file digests: logged, not constrained)
           /\ LET pages == PagesOf(E.addr_pg, E.addr_rem, E.len, page)
                  avail == Avail(Prepared({}, {}, pages, E.punch), pages)
                  x == WriteExpect(E.offrem, E.addr_rem, E.len % page, E.flags, avail)
@@ -90,13 +91,11 @@ TWrite == /\ IsEvent("write")
                 \* ... and the source topology is observably what it was
                 /\ Digests(E.obs) = Digests(Snap)
                 /\ \/ /\ x.succeed /\ E.ret = 0
-                      /\ E.covers = 1                       \* the file holds the whole segment
                       /\ E.free_after = 1                   \* "temporarily mapped"
                       /\ imgs' = imgs \cup {Image(E.off, E.addr_pg, E.addr_rem, E.len, Len(snaps))}
                       /\ fend' = RoundUp(E.off + E.len)
                    \/ /\ x.fail /\ E.ret = -1 /\ E.errno \in x.errs
                       /\ E.free_after = E.avail             \* the range is left as it was found
-                      /\ E.flags # 0 => E.all1 = E.all0     \* refused before touching the file
                       /\ UNCHANGED <<imgs, fend>>
           /\ UNCHANGED <<page, snaps, snapok, L, proc, free, live>>
 
